@@ -455,13 +455,17 @@ def check(run, replay):
         return ('a', 0, ('i', G.NID["r"]), e)
 
     cases = list(CORPUS) + cast_corpus()
+    plausible = set(cases)       # statements a compiler accepts syntactically: operands of ++ -- & = are lvalue-shaped
     n = 2500 if quick else 50000
     for _ in range(n):
         lang = rng.choice(["c", "cpp"])
-        e = G.gen(rng, rng.randint(2, 8), lang == "cpp", wild=rng.random() < 0.15)
+        wild = rng.random() < 0.15
+        e = G.gen(rng, rng.randint(2, 8), lang == "cpp", wild=wild)
         if rng.random() < 0.65 or e[0] in "ink":
             e = wrap(e)      # (a bare `a , b ;` gets no tree at all: createAstAtToken, not the ladder)
         cases.append((lang, e))
+        if not wild:
+            plausible.add((lang, e))
     if not quick:
         full = []
         for k in range(1, 5):
@@ -473,10 +477,14 @@ def check(run, replay):
             cases.append(("c" if i % 2 else "cpp", wrap(e)))
     cases = list(dict.fromkeys(cases))
 
-    all_prop, all_modl, all_thm, sample = [], [], [], []
+    all_prop, all_modl, all_thm, sample, all_rej = [], [], [], [], []
     for off in range(0, len(cases), 4000):
         recs = ev.evaluate(cases[off:off + 4000])
+        for r in recs:
+            r["plausible"] = (r["lang"], r["e"]) in plausible
         p, m, t = judge(run, recs)
+        all_rej += [r for r in recs if r["status"] != "ok" and r["plausible"] and r["stage6_premises"] and r["thm"]
+                    and "internalAstError" in r.get("why", "")]
         all_prop += p
         all_modl += m
         all_thm += t
@@ -509,6 +517,16 @@ def check(run, replay):
                        "implementation_tokens": " ".join(small["impl_strs"]),
                        "implementation_tree": G.sexpr(small["impl_strs"], small["impl_links"]),
                        "model_tree": G.sexpr(small["impl_strs"], small.get("model_links", {}))}, found_input=False)
+    # cppcheck's AST builder (validateAst) rejects a plausible statement that the model parses to the grammar's tree:
+    # the model does not follow the code (the property itself only speaks about accepted expressions)
+    run.stream("model-vs-impl")["disagreements"] += len(all_rej)
+    for rec in sorted(all_rej, key=lambda r: G.size(r["e"]))[:3]:
+        run.violation("astreject:" + hashlib.sha1(rec["text"].encode()).hexdigest()[:12],
+                      "cppcheck rejects `%s ;` (%s) with %s although the model of createAst builds the grammar's tree %s" % (
+                          rec["text"], rec["lang"], rec["why"][:80], G.sexpr(rec["strs"], rec["spec_links"])),
+                      {"broken": "correspondence model-vs-impl (implementation rejects)", "language": rec["lang"],
+                       "declarations": G.PRELUDE, "statement": rec["text"] + " ;", "implementation_says": rec["why"],
+                       "model_tree": G.sexpr(rec["strs"], rec["spec_links"])}, found_input=False)
     for rec in all_thm[:2]:
         run.violation("thm:" + hashlib.sha1(rec["text"].encode()).hexdigest()[:12],
                       "the extracted model contradicts the proved theorem on `%s`" % rec["text"],
